@@ -44,14 +44,17 @@ RT_OF = {"p_i32": "p_i32"}
 
 def design_level(ctx):
     with ThreadPoolExecutor(max_workers=5) as ex:
-        fm = ex.submit(core.tlc, "MC_CallCb", cfg_text=CFG % "faithful", workers=4, coverage=True, timeout=1200)
-        fv = [ex.submit(core.tlc, "MC_CallCb", cfg_text=CFG % v, workers=1, timeout=600) for v, _ in VARIANTS]
+        fm = ex.submit(core.tlc, "MC_CallCb", cfg_text=CFG % "faithful", workers=4, coverage=not ctx.quick, timeout=1200)
+        fv = [ex.submit(core.tlc, "MC_CallCb", cfg_text=(CFG % v).replace("MCCfgs", "SmallCfgs"), workers=1, timeout=600,
+                        env=R.LIGHT_JVM) for v, _ in VARIANTS]
         r = fm.result()
         ctx.add_tlc("MC_CallCb(Base=4)", r)
         cov = r.coverage()
         for a in ("Create", "Invoke", "Body", "Error"):
-            if cov.get(a, (0, 0))[1] == 0:
+            if not ctx.quick and cov.get(a, (0, 0))[1] == 0:
                 raise core.MachineryError("MC_CallCb: action %s never taken" % a)
+        if r.depth != 5:       # create -> ready -> body -> error -> done: all four actions were taken
+            raise core.MachineryError("MC_CallCb: unexpected depth %d" % r.depth)
         for (v, inv), f in zip(VARIANTS, fv):
             rv = f.result()
             ctx.add_tlc("sanity:" + v, rv, require_ok=False, count_states=False)
@@ -79,7 +82,7 @@ def make_sigs(ctx, rows, per_rt):
         else:
             cands = [rtn] * per_rt
         for j, rt in enumerate(cands):
-            n = rng.choice([0, 1, 2, 3, 4, 7, 9]) if j else rng.randint(1, 4)
+            n = rng.choice([0, 1, 2, 3, 4, 5, 7, 8, 9])      # > 6 integer / > 8 float parameters go to the stack
             sigs.append((rtn, (rt, tuple(rng.choice(CB.ARG_TYPES) for _ in range(n)))))
     return sigs
 
